@@ -548,6 +548,17 @@ class Node(
     def _write_cache(self) -> None:
         self._cached_inputs = self.inputs.to_value_dict()
 
+    def __getstate__(self):
+        state = super().__getstate__()
+        if self.running:
+            # The cache was written when this run was admitted, but the outputs that
+            # would belong to it do not exist yet. A copy restored from this state
+            # (e.g. from a checkpoint a sibling wrote, in a process that died before we
+            # finished) must not answer from it once its `running` flag has been
+            # cleared by hand -- it has to run
+            state["_cached_inputs"] = None
+        return state
+
     def _on_cache_hit(self) -> None:
         """A hook for subclasses to act on cache hits"""
         return
